@@ -81,13 +81,15 @@ def gen_class(rng, name, base=None, force_opts=None):
              'compare': True, 'hash': None, 'initvar': False, 'use_field': False}
         r = rng.random()
         need_default = seen_default and not eff['kw_only']
-        if r < 0.12 and t == 'object' and not has_initvar:
+        if r < 0.12 and t == 'object' and not has_initvar and not (seen_default and not eff['kw_only']):
             f['initvar'] = True
             has_initvar = True
         if t in FACTORIES and not f['initvar'] and (rng.random() < 0.35 or (need_default and t == 'list')):
             f['factory'] = rng.choice(FACTORIES[t])
             f['has_default'] = True
             f['use_field'] = True
+        elif f['initvar'] and not need_default:
+            pass      # InitVar without default: the class-attribute default of an InitVar is not readable on an extension type
         elif t in DEFAULTS and (rng.random() < 0.45 or need_default):
             f['default'] = rng.choice(DEFAULTS[t])
             f['has_default'] = True
@@ -117,7 +119,7 @@ def gen_class(rng, name, base=None, force_opts=None):
     return {'name': name, 'base': base['name'] if base else None, 'opts': opts, 'eff': eff, 'fields': fields,
             'chain_init': (base.get('chain_init', [True]) if base else []) + [eff['init']],
             'all_fields': (base['all_fields'] if base else []) + fields, 'post_init': post_init,
-            'initvars': all_initvars}
+            'initvars': all_initvars, 'own_post_init': post_init}
 
 
 def render(cls, pyx):
@@ -129,7 +131,8 @@ def render(cls, pyx):
     for f in cls['fields']:
         ann = A[f['type']]
         if f['initvar']:
-            ann = '%s.InitVar[%s]' % (mod, ann)
+            # the supported spelling in .pyx files is the stdlib one (cf. tests/run/cdef_class_dataclass.pyx)
+            ann = 'dataclasses.InitVar[%s]' % ann
         rhs = ''
         if f['use_field']:
             kw = []
@@ -224,10 +227,11 @@ def introspect(M, cls):
         return 'MISSING' if f.default is dataclasses.MISSING else f.default
     def fact(f):
         return 'MISSING' if f.default_factory is dataclasses.MISSING else f.default_factory.__name__
-    return ([(f.name, dflt(f), fact(f), f.init, f.repr, f.compare, f.hash, f.kw_only, f._field_type.name) for f in fs],
+    return ([(f.name, dflt(f), fact(f), f.init, f.repr, f.compare, f.hash, f._field_type.name) for f in fs],
             (p.init, p.repr, p.eq, p.order, p.unsafe_hash, p.frozen),
             getattr(C, '__match_args__', 'absent'), dataclasses.is_dataclass(C),
-            sorted(n for n in C.__dataclass_fields__))
+            sorted(n for n in C.__dataclass_fields__),
+            [f.kw_only if isinstance(f.kw_only, bool) else type(f.kw_only).__name__ for f in fs])
 
 def protocol(M, cls, a, k, changes):
     o = _mk(M, cls, a, k)
@@ -296,8 +300,6 @@ def gen_cases(rng, cls, n):
 
     add('introspect(M, %r)' % name, 'introspect')
     if not cls['eff']['init'] or any(not c2 for c2 in cls.get('chain_init', [True])):
-        a, k = gen_args(rng, cls, wrong=True)
-        add('construct(M, %r, (1, 2, 3, 4, 5, 6, 7, 8, 9), {})' % name, 'construct-wrong-args')
         return cases
     for i in range(n):
         r = rng.random()
@@ -327,46 +329,57 @@ def gen_cases(rng, cls, n):
                 ch[f['name']] = rng.choice(VALUES[f['type']])
             add('protocol(M, %r, %s, %s, {%s})' % (name, a, k, ', '.join('%r: %s' % kv for kv in ch.items())), 'asdict-astuple-replace')
         else:
-            add('matchit(M, %r, %s, %s, %d)' % (name, a, k, rng.randint(0, 2)), 'match-statement')
+            lead = 0
+            for f in cls['all_fields']:
+                if f['initvar']:
+                    break
+                lead += 1
+            add('matchit(M, %r, %s, %s, %d)' % (name, a, k, min(lead, rng.randint(0, 2))), 'match-statement')
     return cases
 
 
-def classify(cls, case, exp, got):
+def classify(cls, case, exp, got, bases=()):
+    """mechanism key from the operation, the decorator options / field features that matter for it and what differs"""
     tag = case['t']
     eff = cls['eff']
     nondefault = sorted(k for k in OPTIONS if eff[k] != OPT_DEFAULT[k])
-    feats = set()
-    for f in cls['all_fields']:
-        if f['initvar']:
-            feats.add('InitVar')
-        if f['factory']:
-            feats.add('default_factory')
-        if not f['init']:
-            feats.add('init=False')
-        if f['type'] in ('cint', 'cdouble'):
-            feats.add('C-typed-field')
-        if f['hash'] is not None:
-            feats.add('hash=')
-    if cls['base']:
-        feats.add('inheritance')
-    if cls['post_init']:
-        feats.add('post_init')
+    fields = cls['all_fields']
 
     def oc(o):
         if o[0] == 'exc':
             return 'exc:' + o[1]
         return 'ok'
-    what = '%s->%s' % (oc(exp), oc(got))
+    es, gs = str(exp), str(got)
+    comp = None
     if oc(exp) == 'ok' and oc(got) == 'ok':
-        # locate the first differing component of the observation tuple
         try:
             e, g = exp[1][1], got[1][1]
-            idx = next((i for i in range(min(len(e), len(g))) if e[i] != g[i]), None)
-            what = 'component%s' % idx
+            comp = next((i for i in range(min(len(e), len(g))) if e[i] != g[i]), None)
         except Exception:
-            what = 'value'
-        if exp[-1] != got[-1] and exp[:2] == got[:2]:
-            what = 'post_init-log'
+            comp = None
+    log_only = exp[:-1] == got[:-1] and exp[-1] != got[-1]
+    if log_only and cls['base'] and not cls.get('own_post_init', True):
+        return 'post_init:inherited-__post_init__-not-called'
+    if tag == 'introspect' and comp == 5:
+        return 'introspect:Field.kw_only-is-not-a-bool'
+    if tag == 'setattr' and eff['frozen'] and 'FrozenInstanceError' in es and 'AttributeError' in gs:
+        return 'frozen:assignment-raises-AttributeError-instead-of-FrozenInstanceError'
+    if cls['base'] and not eff['eq'] and eff['unsafe_hash'] and tag in ('compare', 'hash-value') and (
+            any(b['eff']['eq'] for b in bases)):
+        return 'inheritance:subclass-defining-only-__hash__-loses-inherited-comparisons'
+    if tag == 'compare' and (eff['order'] or any(b['eff']['order'] for b in bases)) and comp is not None and 2 <= comp <= 5 \
+            and "'<TypeError>'" in gs:
+        return 'order:TypeError-when-leading-fields-are-equal-but-unorderable'
+    hashdiff = any(not f['compare'] and f['hash'] is None and not f['initvar'] for f in fields)
+    if hashdiff and (tag == 'hash-value' or (tag == 'compare' and comp == 6)):
+        return 'hash:compare=False-field-included-in-__hash__'
+    if (tag == 'match-statement' or (tag == 'introspect' and comp == 2)) and any(not f['init'] for f in fields):
+        return 'match_args:init=False-field-listed-in-__match_args__'
+    what = '%s->%s' % (oc(exp), oc(got))
+    if comp is not None:
+        what = 'component%s' % comp
+    if log_only:
+        what = 'post_init-log'
     return '%s:%s:opts=%s' % (tag, what, '+'.join(nondefault) or 'default')
 
 
@@ -413,7 +426,7 @@ def main(ck):
         for g in groups:
             name = 'c30m%d' % nmod
             nmod += 1
-            mods[name] = 'cimport cython\n\nlog = None\n\n' + '\n'.join(render(c, True) for c in g)
+            mods[name] = 'cimport cython\nimport dataclasses\n\nlog = None\n\n' + '\n'.join(render(c, True) for c in g)
             refs[name] = 'import dataclasses\n\nlog = None\n\n' + '\n'.join(render(c, False) for c in g)
             modclasses[name] = g
         d, inf_ = tree.build_sources(mods, subdir='b', ext='.pyx')
@@ -479,9 +492,9 @@ def main(ck):
         for m in res.mismatches:
             c = fmap[m['case']['_c']]
             chain = [c] if not c['base'] else [fmap[c['base']], c]
-            pyx = 'cimport cython\n\nlog = None\n\n' + '\n'.join(render(x, True) for x in chain)
+            pyx = 'cimport cython\nimport dataclasses\n\nlog = None\n\n' + '\n'.join(render(x, True) for x in chain)
             ref = 'import dataclasses\n\nlog = None\n\n' + '\n'.join(render(x, False) for x in chain)
-            key = classify(c, m['case'], m['exp'], m['got'])
+            key = classify(c, m['case'], m['exp'], m['got'], bases=chain[:-1])
             ck.discrepancy(key, '%s | %s: stdlib dataclass %s, cdef dataclass %s' % (render(c, True).replace('\n', ' | ')[:400],
                                                                                    m['case']['x'][:300], str(m['exp'])[:300],
                                                                                    str(m['got'])[:300]),
@@ -490,14 +503,14 @@ def main(ck):
         for cr in res.crashes:
             c = fmap[cr['case']['_c']]
             ck.discrepancy('crash:%s' % cr['case']['t'], 'crash/hang %s on %s' % (cr['kind'], cr['case']['x'][:300]),
-                           {'module_source': 'cimport cython\n\nlog = None\n\n' + render(c, True), 'ext': '.pyx', 'case': cr['case'],
+                           {'module_source': 'cimport cython\nimport dataclasses\n\nlog = None\n\n' + render(c, True), 'ext': '.pyx', 'case': cr['case'],
                             'setup': SETUP, 'stderr': cr['stderr']})
         for ft in res.fatal:
             ck.inconclusive_if(True, 'driver failed for %s: %s' % (name, str(ft)[-600:]))
     ck.inconclusive_if(len(lost) > len(classes) // 5, '%d of %d classes failed to build' % (len(lost), len(classes)))
     missing_single = [o for o in OPTIONS if not opt_single.get(o)]
-    missing_pairs = [a + '+' + b for i, a in enumerate(OPTIONS) for b in OPTIONS[i + 1:] if not opt_pairs.get(a + '+' + b)
-                     and not ({a, b} == {'eq', 'order'})]
+    missing_pairs = ['+'.join(sorted((a, b))) for i, a in enumerate(OPTIONS) for b in OPTIONS[i + 1:]
+                     if not opt_pairs.get('+'.join(sorted((a, b)))) and not ({a, b} == {'eq', 'order'})]
     ck.inconclusive_if(bool(missing_single or missing_pairs), 'option lattice cells not observed: %s %s' % (missing_single, missing_pairs[:5]))
     return ck.finish(
         total_n, total_distinct,
